@@ -674,3 +674,41 @@ func FixCrc(v int, f []byte) {
 	h.Write(f[hs:])
 	binary.BigEndian.PutUint32(f[hs-4:], h.Sum32())
 }
+
+// WldObs / WriteLen: the length-prefixed writer (codec.WriteLenData) on a recording writer.
+type WldObs struct {
+	N      int
+	Err    error
+	Panic  string
+	Writes [][]byte
+}
+
+func WriteLen(data []byte) WldObs {
+	var o WldObs
+	w := &RecWriter{}
+	o.Panic = hxlib.Guard(func() { o.N, o.Err = codec.WriteLenData(w, data) })
+	o.Writes = w.Writes
+	return o
+}
+
+// WldLine: the `wld` op and the real code's answer.
+func WldLine(spec string, o *WldObs) (op, impl string) {
+	ret := ""
+	switch {
+	case o.Panic != "":
+		ret = "ret=" + PanicKind(o.Panic)
+	case o.Err != nil:
+		ret = "ret=" + ErrKind(o.Err)
+	default:
+		ret = fmt.Sprintf("ret=%d", o.N)
+	}
+	w := "none"
+	if len(o.Writes) > 0 {
+		ds := make([]string, len(o.Writes))
+		for i, x := range o.Writes {
+			ds[i] = Digest(x)
+		}
+		w = strings.Join(ds, "|")
+	}
+	return "wld data=" + spec, ret + " w=" + w
+}
